@@ -13,6 +13,7 @@
 ##############################################################################
 """ZConfig factory datatypes for log handlers."""
 
+import codecs
 import functools
 import sys
 import urllib.parse
@@ -65,6 +66,23 @@ class HandlerFactory(Factory):
         return self.section.level
 
 
+def check_when(when):
+    # The values logging.handlers.TimedRotatingFileHandler understands;
+    # anything else would only be refused when the handler is created.
+    w = when.upper()
+    if not (w in ("S", "M", "H", "D", "MIDNIGHT")
+            or (len(w) == 2 and w[0] == "W" and w[1] in "0123456")):
+        raise ValueError("invalid rollover interval (when): %r" % when)
+
+
+def check_encoding(encoding):
+    if encoding:
+        try:
+            codecs.lookup(encoding)
+        except LookupError:
+            raise ValueError("unknown encoding: %r" % encoding)
+
+
 class FileHandlerFactory(HandlerFactory):
 
     def __init__(self, section):
@@ -100,6 +118,7 @@ class FileHandlerFactory(HandlerFactory):
                 return loghandler.StreamHandler(sys.stdout)
 
         elif when or max_bytes or old_files or interval:
+            check_encoding(encoding)
             if not old_files:
                 raise ValueError("old-files must be set for log rotation")
             if when:
@@ -107,6 +126,7 @@ class FileHandlerFactory(HandlerFactory):
                     raise ValueError("can't set *both* max_bytes and when")
                 if not interval:
                     interval = 1
+                check_when(when)
                 factory = functools.partial(
                     loghandler.TimedRotatingFileHandler,
                     path, when=when, interval=interval,
@@ -120,6 +140,7 @@ class FileHandlerFactory(HandlerFactory):
                 raise ValueError(
                     "max-bytes or when must be set for log rotation")
         else:
+            check_encoding(encoding)
             factory = functools.partial(
                 loghandler.FileHandler,
                 path, encoding=encoding, delay=delay)
